@@ -188,6 +188,8 @@ func runCase(c *Case) (res string) {
 		return runRxCache(c)
 	case "tmpl":
 		return runTmpl(c, tree)
+	case "wide":
+		return runWide(c)
 	}
 	return "badkind"
 }
